@@ -5,7 +5,7 @@ CONFIG = {
     "lean": ["VProps.C14"],
     "sources": ["VProps/C14.lean", "VModel/FedCheck.lean", "VModel/FedCheckSpec.lean", "VModel/FedCheckInst.lean",
                 "VProofs/FedCheck.lean", "VProofs/FedCheckLog.lean", "VProofs/FedCheckChain.lean"],
-    "theorems": ["V.C14.state_response_fails_iff", "V.C14.state_response_exact", "V.C14.state_response_sound", "V.C14.send_join_accept_iff", "V.C14.retry_terminates", "V.C14.checkAllowed_terminates", "V.C14.at_state_iff", "V.C14.auth_chain_iff", "V.C14.load_classification", "V.C14.collect_mem", "V.C14.collect_no_panic", "V.C14.padd_idem", "V.C14.authOracles_addIdem", "V.C14.tableProvider_provOK", "V.FedCheck.retryAE_eq_stepC", "V.FedCheck.checkAllowed_contract", "V.FedCheck.verifyEventAuthChain_log", "V.FedCheck.chainStep_post"],
+    "theorems": ["V.C14.state_response_fails_iff", "V.C14.state_response_exact", "V.C14.state_response_sound", "V.C14.send_join_accept_iff", "V.C14.retry_terminates", "V.C14.checkAllowed_terminates", "V.C14.at_state_iff", "V.C14.auth_chain_iff", "V.C14.load_classification", "V.C14.collect_mem", "V.C14.collect_no_panic", "V.C14.padd_idem", "V.C14.authOracles_addIdem", "V.C14.authOraclesBy_addIdem", "V.C14.backfill_sound", "V.C14.tableProvider_provOK", "V.FedCheck.retryAE_eq_stepC", "V.FedCheck.checkAllowed_contract", "V.FedCheck.verifyEventAuthChain_log", "V.FedCheck.chainStep_post"],
     "rule": "fedcheck: /state and /send_join responses, auth chains, state-at-event checks, LoadAndVerify inputs and backfill transactions built "
             "from generated rooms (create, power levels, join rules, 3-6 members, re-joins, topic changes, messages; events carry proper auth_events "
             "chosen as StateNeededForAuth would, prev_events chains, valid content hashes and are read back through NewEventFromUntrustedJSON) for "
@@ -16,9 +16,20 @@ CONFIG = {
             "extra one, a non-state event, mixtures} x StateProvider behaviours {true state, an auth event missing from the IDs (slow path), empty, "
             "state that refuses the event, non-state event in the state, ID lookup error, state lookup error} x allowValidation. Compared: returned ID "
             "lists (in order for state / send_join, sorted for load / backfill), error class, []EventLoadResult classes, sorted provider call log, "
-            "termination (a scripted provider called more than 400 times is reported as `panic:nontermination`). spec stream: VModel.FedCheckSpec "
-            "(filters by `good`, accept-iff, chain closure, first-failing-check classes) wherever the provider script abides by the contract; "
-            "`unspecified` otherwise. non-trivial = an op whose outcome is not a plain malformed-response error",
+            "termination (a scripted provider called more than 400 times is reported as `panic:nontermination`). Systematically, every tier: "
+            "(a) room versions 1 and 2, where the event ID is a member of the event: responses carrying two DIFFERENT events under one event ID "
+            "-- the genuine one and a twin whose signature fails / that is verified but refused by the auth rules (same or another "
+            "(type, state_key)) -- x 4 placements (genuine in auth_events and twin in state_events, the reverse, both in auth_events in either "
+            "order) for /state and /send_join; returned EVENTS are identified by ID and content, the scripted signature oracle is per redacted "
+            "JSON (argument `sigcls`, checked against the library's redaction); (b) every room version: auth chains in which a FETCHED auth "
+            "event cites no auth events and is refused (an outsider's join / power levels / second create citing nothing, one or two levels "
+            "below the event to verify, and as the event itself) against a contract-abiding provider, through VerifyEventAuthChain, "
+            "LoadAndVerify and RequestBackfill. spec stream: VModel.FedCheckSpec (filters by `good`, accept-iff, chain closure, "
+            "first-failing-check classes) wherever the provider script abides by the contract ON THE IDS THAT CAN BE ASKED FOR (the auth "
+            "event IDs of the events in play and, recursively, of the events the script holds for them; entries for other IDs are never "
+            "consulted); `unspecified` otherwise. backfill_props: the driver evaluates on the implementation's answer that every returned "
+            "event is a cleanly parsed PDU of some server's answer, fails its signature check or passes auth chain and state-at-event "
+            "check, and that no event ID is returned twice. non-trivial = an op whose outcome is not a plain malformed-response error",
     "nontrivial": lambda op, impl: impl != "err:malformed",
     "trusted": COMMON_TRUSTED + [
         "NewEventFromUntrustedJSON's verdict per raw message (ok / persistable / rejected) is an oracle (C04): the harness checks the class it declares against the library before each op",
@@ -30,6 +41,6 @@ CONFIG = {
         "the EventProvider is stateless (answers as a function of the requested IDs)",
         "the exactness theorems about CheckStateResponse / CheckSendJoinResponse / VerifyEventAuthChain assume the provider contract ProvOK (single-ID requests are answered with an error, nothing, or exactly the requested event); termination of checkAllowedByAuthEvents needs no contract (retry_terminates, checkAllowed_terminates; fixed finding 778c3d3). Ops whose provider answers with OTHER events stay in the stream as regression guards: the scripted provider gives up after 400 calls and the harness reports `panic:nontermination`, always a concrete violation",
         "auth_chain_iff is stated for runs that finish within the model's fuel (a bound on the loop's iterations is not proved)",
-        "RequestBackfill deliberately passes on events whose only failure is the signature check (collect_mem); C14's statement does not cover it",
+        "RequestBackfill deliberately passes on events that fail the signature check -- which, classification being by the first failing check, were never auth-checked (collect_mem, backfill_sound); C14's statement does not name RequestBackfill: the spec stream of backfill_props reads its title for it with exactly that exception",
     ],
 }
